@@ -63,6 +63,10 @@ func c17Record(t *rapid.T) (ChartConfig, bool) {
 			var bs []string
 			for i := 0; i < nb; i++ {
 				b := rapid.StringMatching(`[a-z0-9.*<=-]{1,8}`).Draw(t, "bucket")
+				if rapid.IntRange(0, 14).Draw(t, "fieldLikeBucket") == 0 {
+					// a bucket that reads like a field of the record when it stands at the start of a line
+					b = rapid.SampledFrom([]string{"error:timeout", "version:set", "title:x", "counter:y", "depth:3", "issue:1", "type:", "program:", "module:m", "description:d"}).Draw(t, "fieldBucket")
+				}
 				if rapid.IntRange(0, 30).Draw(t, "dashBucket") == 0 {
 					b = "---" // legal as a bucket name; on a line of its own it would be the record separator
 				}
